@@ -434,8 +434,8 @@ def build_histories(ctx, tier, pid):
         bfs6 = tlc_histories(ctx, "Objects_gen_thorough.cfg", what="gen: all histories to depth 6")
         ctx.notes["bfs_histories_enumerated"] = len(bfs5) + len(bfs6)
         rng.shuffle(bfs6)
-        bfs = bfs5 + bfs6[:2500]
-        sim = tlc_histories(ctx, "Objects_gen_sim.cfg", simulate=1500, depth=24, what="gen: long random histories", timeout=1500)[:600]
+        bfs = bfs5 + bfs6[:2000]
+        sim = tlc_histories(ctx, "Objects_gen_sim.cfg", simulate=1200, depth=24, what="gen: long random histories", timeout=1500)[:450]
     ctx.notes["bfs_histories_replayed"] = len(bfs)
     ctx.notes["long_random_histories"] = len(sim)
     for ops in bfs + sim:
@@ -505,6 +505,7 @@ def run_check(ctx, pid):
                 jobs.append((vname, cap, k, part))
     totals = [0] * 9
     events = 0
+    nf3 = npj = 0
 
     def one(job):
         vname, cap, k, part = job
@@ -560,8 +561,7 @@ def run_check(ctx, pid):
                 if vf.REPO == "/repo" and hid is not None:
                     with open(os.path.join(vf.REPLAY, "%s_known_F3.txt" % pid), "w") as f:
                         f.write(minimal_replay(ips, hid))
-            else:
-                ctx.known.append("F3-shaped mismatches: %d in %s" % (st[5], name))
+            nf3 += st[5]
         if st[8] > 0:
             first = None
             for pr in tr.prints:
@@ -575,8 +575,7 @@ def run_check(ctx, pid):
                 if vf.REPO == "/repo" and hid is not None:
                     with open(os.path.join(vf.REPLAY, "%s_known_F-proj16.txt" % pid), "w") as f:
                         f.write(minimal_replay(ips, hid))
-            else:
-                ctx.known.append("projection 16-bit wraps: %d in %s" % (st[8], name))
+            npj += st[8]
         if len(ctx.samples) < 4:
             with open(out) as f:
                 for ln in f:
@@ -584,6 +583,10 @@ def run_check(ctx, pid):
                         ctx.sample(dict(variant=name, event=ln.strip()[:700]))
                         break
     ctx.evaluations = events
+    if nf3:
+        ctx.notes["known_F3_mismatches_let_through"] = nf3
+    if npj:
+        ctx.notes["known_projection_16bit_events_let_through"] = npj
     ctx.notes["comparisons"] = dict(zip(STAT_NAMES, totals))
     ctx.notes["variants"] = ["%s%s" % (v, "" if c is None else " arch cap %d" % c) for v, c in variants]
     if not ctx.violations:
